@@ -153,6 +153,16 @@ def builder_terms(repo, rep):
                 for pr in it.explore(f, [ctx, S.punct('('), ListV(items), S.punct(')')],
                                      {'dangle': Const(dangle and not tc), 'force_break': Const(tc)}):
                     out.append((lab, where, pr))
+    # the same builder on sequences longer than every size constant it compares against (and than a fixed small count), with a comment on
+    # the first, on a middle and on the last element
+    counts, mined = S.scaled_counts(repo, f)
+    rep.note('sequence builder: size constants %s; element counts %s' % ({k: v[:1] for k, v in mined.items()} or 'none', counts))
+    for nel in counts:
+        for at in ((), (0,), (nel // 2,), (nel - 1,), (1, nel - 2)):
+            docs = [S.sub('e%d' % i, i in at) for i in range(nel)]
+            lab = 'sequence_of_docs[n=%d,commented=%s]' % (nel, list(at))
+            for pr in it.explore(f, [ctx, S.punct('('), ListV(docs), S.punct(')')], {'dangle': Const(False), 'force_break': Const(False)}):
+                out.append((lab, where, pr))
     # build_fncall
     f = m.funcs['build_fncall']
     where = f.where
